@@ -132,6 +132,20 @@ def translate(repo: Path) -> dict:
                and ast.unparse(n.body[0]) == "del tree_obj[name]"]
     if len(empties) != 1:
         raise T.TranslateError("commit_tree_changes: `if len(subtree) == 0: del tree_obj[name]` not found")
+    # commit_tree_changes: direct entries are collected in the first loop and stored after the nested changes
+    loops = [n for n in ctc.body if isinstance(n, ast.For)]
+
+    def _stores_entry(node):
+        return any(isinstance(x, ast.Assign) and isinstance(x.targets[0], ast.Subscript)
+                   and ast.unparse(x.targets[0].value) == "tree_obj" for x in ast.walk(node))
+    first = [i for i, n in enumerate(loops) if ast.unparse(n.iter) == "changes"]
+    nested = [i for i, n in enumerate(loops) if ast.unparse(n.iter) == "nested_changes.items()"]
+    if len(first) != 1 or len(nested) != 1 or first[0] > nested[0]:
+        raise T.TranslateError("commit_tree_changes: the loops over `changes` and `nested_changes.items()` not recognised")
+    appended = {ast.unparse(x.func.value) for x in ast.walk(loops[first[0]]) if isinstance(x, ast.Call)
+                and isinstance(x.func, ast.Attribute) and x.func.attr == "append" and isinstance(x.func.value, ast.Name)}
+    later = [n for n in loops[nested[0] + 1:] if ast.unparse(n.iter) in appended and _stores_entry(n)]
+    ctc_deferred = (not _stores_entry(loops[first[0]])) and len(later) == 1
     gitlink = T.const_value(objs, "S_IFGITLINK")
     rs_ifmt = _rust_const(rs, "S_IFMT")
     rs_ifdir = _rust_const(rs, "S_IFDIR")
@@ -237,6 +251,9 @@ def mergeBranchesCanonical : Bool := {b(merge_canonical)}
 /-- tree_changes passes `prune_identical=(not want_unchanged)` and splits on `S_IFMT` differences unless change_type_same -/
 def pruneIsNotWantUnchanged : Bool := {b(prune_ok)}
 def typeChangeSplitsUnlessSame : Bool := {b(split_ok)}
+/-- commit_tree_changes stores the direct entries of a change list AFTER applying the nested changes (first loop only
+collects them; removals of direct entries are still done in the first loop) -/
+def ctcDirectEntriesDeferred : Bool := {b(ctc_deferred)}
 def changeAdd : String := {json.dumps(names['add'])}
 def changeModify : String := {json.dumps(names['modify'])}
 def changeDelete : String := {json.dumps(names['delete'])}
